@@ -67,15 +67,21 @@ func GenC07(seed uint64) *Scenario {
 	for i := 0; i < n; i++ {
 		k := keys[g.r.Intn(len(keys))]
 		known := true
+		subType := int32(1)
 		if allowUnknown && g.r.Chance(150) {
 			known = false
-			if g.r.Chance(500) {
+			switch g.r.Intn(3) {
+			case 0:
 				k = key{"208930000000099", k.rg}
-			} else {
+			case 1:
 				k = key{k.sub, 77}
+			default:
+				// the digits of a provisioned subscriber under another identity type (E.164, SIP URI,
+				// NAI, private): not an IMSI, so no account of this server is meant
+				subType = []int32{0, 2, 3, 4}[g.r.Intn(4)]
 			}
 		}
-		d := &DiamOp{Conn: g.r.Intn(nConn), SessionID: fmt.Sprintf("%d", 1+g.r.Intn(5)), SubType: 1, SubData: k.sub, RG: k.rg}
+		d := &DiamOp{Conn: g.r.Intn(nConn), SessionID: fmt.Sprintf("%d", 1+g.r.Intn(5)), SubType: subType, SubData: k.sub, RG: k.rg}
 		d.ReqNum = reqNum[k]
 		if g.r.Chance(100) {
 			d.ReqNum = uint32(g.r.U64())
@@ -315,6 +321,10 @@ func ccrName(d *DiamOp) string {
 var c08Costs = []string{"1", "2", "3", "7", "10", "100", "999", "1000", "65536", "4294967295", "0", "0", "00", "1.5", "0.5", "2.50", "10.0", ".5", "5.",
 	"", "abc", "1e3", "-1", " 2", "4294967296", "99999999999999999999", "1,5", "0x10"}
 
+// tariffs of the whole-system family: plain positive integers, among them values that a
+// single-precision float cannot represent (above 2^24) and the 32-bit extremes
+var c08WholeCosts = []string{"1", "2", "3", "7", "10", "100", "999", "1000", "65536", "16777217", "33554433", "123456789", "4294967295"}
+
 // genC08Whole: the CHF in front of the rating server; the operator changes the stored
 // tariff between usage reports. After every update the unit cost the CHF holds must be the
 // one the rating server applied (decoded from the answer on the wire).
@@ -323,14 +333,14 @@ func genC08Whole(g *gen) *Scenario {
 	supi := supiN(1)
 	nrg := 1 + g.r.Intn(2)
 	for rg := 1; rg <= nrg; rg++ {
-		g.sc.Accounts = append(g.sc.Accounts, Account{Supi: supi, RG: int32(rg), Quota: 2_000_000_000, UnitCost: c08Costs[g.r.Intn(8)]})
+		g.sc.Accounts = append(g.sc.Accounts, Account{Supi: supi, RG: int32(rg), Quota: 2_000_000_000, UnitCost: c08WholeCosts[g.r.Intn(len(c08WholeCosts))]})
 	}
 	ops := []Op{{ID: g.id(), Kind: "create", Supi: supi, Sess: "s", Consumer: "smf", ChargingID: 3}}
 	n := 2 + g.r.Intn(10)
 	for i := 0; i < n; i++ {
 		rg := int32(1 + g.r.Intn(nrg))
 		if g.r.Chance(350) {
-			ops = append(ops, Op{ID: g.id(), Kind: "dbcost", Supi: supi, RG: rg, Consumer: c08Costs[g.r.Intn(8)]})
+			ops = append(ops, Op{ID: g.id(), Kind: "dbcost", Supi: supi, RG: rg, Consumer: c08WholeCosts[g.r.Intn(len(c08WholeCosts))]})
 		}
 		ops = append(ops, Op{ID: g.id(), Kind: "update", Supi: supi, Sess: "s",
 			Units: []Unit{{RG: rg, Req: int32(g.r.Range(1, 1000)), Containers: []Container{g.online([]int{0, 500, 1000}[g.r.Intn(3)])}}}})
@@ -437,11 +447,23 @@ func CheckC08(h *History) []Violation {
 				continue
 			}
 			for _, u := range o.Op.Units {
-				// the tariff in the last rating answer of this op for this group, as the wire shows it
+				// the tariff in the last answer to a reserve-mode rating request of this op for this
+				// group, as the wire shows it: that is the one the CHF decodes and keeps (in debit mode
+				// the server prices and the CHF decodes nothing, so nothing is compared)
 				var digits, exp int64
 				have := false
+				type hk struct {
+					conn int
+					hop  uint32
+				}
+				reserve := map[hk]bool{}
 				for _, m := range h.Msgs {
-					if m.Op == o.Op.ID && m.Cmd == 111 && !m.Request && m.ToClient && m.Delivered && m.F.HasTariff {
+					if m.Op == o.Op.ID && m.Cmd == 111 && m.Request && !m.ToClient && m.F.HasSR && m.F.ServiceID == int64(u.RG) && m.F.ReqSubType == 1 {
+						reserve[hk{m.Conn, m.HopByHop}] = true
+					}
+				}
+				for _, m := range h.Msgs {
+					if m.Op == o.Op.ID && m.Cmd == 111 && !m.Request && m.ToClient && m.Delivered && m.F.HasTariff && reserve[hk{m.Conn, m.HopByHop}] {
 						digits, exp, have = m.F.TariffDigits, m.F.TariffExp, true
 					}
 				}
